@@ -28,6 +28,7 @@ type engine struct {
 	vcErr   map[vcKey]error
 	known   *knownFindings
 	scopes  map[string]map[*ssa.Function]bool
+	written map[string]bool
 }
 
 // inScope: fn belongs to the safety sweep of the property (reachable from the property's scope roots).
@@ -510,6 +511,53 @@ func (e *engine) attributed(o *obligation, prop string, primary, used bool) bool
 	}
 }
 
+// writtenKeys: the heap arrays some module function may write at objects that can pre-exist a call. All other
+// arrays have the same value in every state of every execution.
+func (e *engine) writtenKeys() map[string]bool {
+	if e.written != nil {
+		return e.written
+	}
+	e.written = map[string]bool{}
+	for _, ms := range e.ma.sets {
+		if ms == nil {
+			continue
+		}
+		for k := range ms.real {
+			e.written[k] = true
+		}
+	}
+	return e.written
+}
+
+// lemmaQuant strips the top-level universal quantifiers of a lemma.
+func lemmaQuant(e cExpr) (vars []cBinder, body cExpr) {
+	body = e
+	for {
+		q, ok := body.(*cQuant)
+		if !ok || !q.Forall {
+			return
+		}
+		vars = append(vars, q.Vars...)
+		body = q.Body
+	}
+}
+
+// lemmaReads: the heap keys a lemma reads (directly, through macros and through the footprints of spec functions).
+func (w *world) lemmaReads(lm *lemmaDef) map[string]bool {
+	if lm.reads != nil {
+		return lm.reads
+	}
+	c := newSMT(w)
+	st := &state{heap: map[string]string{}, locals: map[string]string{}, base: map[string]heapBase{}, alloc: c.declConst("A!0", "Int")}
+	tr := &trans{c: c, pkg: lm.Pkg, vars: map[string]tvar{}, cur: st, old: st, depth: 0, reads: map[string]bool{}}
+	func() {
+		defer func() { recover() }()
+		tr.formula(lm.Expr)
+	}()
+	lm.reads = tr.reads
+	return lm.reads
+}
+
 func (e *engine) lemmaObl(lm *lemmaDef) (o *obligation, err error) {
 	defer func() {
 		if r := recover(); r != nil {
@@ -522,28 +570,71 @@ func (e *engine) lemmaObl(lm *lemmaDef) (o *obligation, err error) {
 	}()
 	c := newSMT(e.w)
 	st := &state{heap: map[string]string{}, locals: map[string]string{}, base: map[string]heapBase{}, alloc: c.declConst("A!0", "Int")}
-	tr := &trans{c: c, pkg: lm.Pkg, vars: map[string]tvar{}, cur: st, old: st, depth: 2}
-	body := lm.Expr
-	// a top-level universal quantifier is skolemised (we refute the negation), so that spec applications
-	// over the quantified variables are ground and get unfolded
-	for {
-		q, ok := body.(*cQuant)
-		if !ok || !q.Forall {
-			break
-		}
-		for _, b := range q.Vars {
-			vt := tr.resolveType(b.Type)
-			n := c.declConst("sk_"+b.Name, vt.sort)
-			tr.vars[b.Name] = tvar{n, vt}
-			if vt.gt != nil {
-				(&funcVC{w: e.w, c: c}).typed(n, vt.gt, st)
+	cur := st
+	prop := lm.Label[:strings.Index(lm.Label, ".")]
+	if lm.TwoState {
+		// the two heaps differ (arbitrarily) on every array some module function may write; arrays nobody writes are
+		// the same in all states. A first translation pass declares the sorts of the arrays read.
+		pass := &trans{c: c, pkg: lm.Pkg, vars: map[string]tvar{}, cur: st, old: st, depth: 0, reads: map[string]bool{}}
+		pass.formula(lm.Expr)
+		reads := pass.reads
+		for _, l2 := range e.w.db.Lemmas {
+			if l2 == lm {
+				break
+			}
+			if l2.TwoState && strings.HasPrefix(l2.Label, prop+".") {
+				p2 := &trans{c: c, pkg: l2.Pkg, vars: map[string]tvar{}, cur: st, old: st, depth: 0, reads: reads}
+				p2.formula(l2.Expr)
 			}
 		}
-		body = q.Body
+		cur = st.clone()
+		written := e.writtenKeys()
+		for _, k := range sortedKeys(reads) {
+			if written[k] {
+				if _, ok := c.heapSorts[k]; ok {
+					cur.heap[k] = c.declConst("H1_"+k, c.heapSorts[k])
+				}
+			}
+		}
+		cur.alloc = c.declConst("A!1", "Int")
+		c.assume("(>= A!1 A!0)")
+	}
+	tr := &trans{c: c, pkg: lm.Pkg, vars: map[string]tvar{}, cur: cur, old: st, depth: 2}
+	// a top-level universal quantifier is skolemised (we refute the negation), so that spec applications
+	// over the quantified variables are ground and get unfolded
+	qvars, body := lemmaQuant(lm.Expr)
+	for _, b := range qvars {
+		vt := tr.resolveType(b.Type)
+		n := c.declConst("sk_"+b.Name, vt.sort)
+		tr.vars[b.Name] = tvar{n, vt}
+		if vt.gt != nil {
+			(&funcVC{w: e.w, c: c}).typed(n, vt.gt, st)
+		}
+	}
+	if lm.TwoState {
+		// earlier two-state lemmas of the same property may be used
+		for _, l2 := range e.w.db.Lemmas {
+			if l2 == lm {
+				break
+			}
+			if l2.TwoState && strings.HasPrefix(l2.Label, prop+".") {
+				t2 := &trans{c: c, pkg: l2.Pkg, vars: map[string]tvar{}, cur: cur, old: st, depth: 0}
+				c.assume(t2.formula(l2.Expr))
+			}
+		}
+	}
+	if lm.Measure != nil {
+		// induction hypothesis: the lemma for all instances of smaller non-negative measure
+		m, mt := tr.expr(lm.Measure)
+		if mt.sort != "Int" {
+			tr.fail("the induction measure must be an integer")
+		}
+		ih := &trans{c: c, pkg: lm.Pkg, vars: map[string]tvar{"ih$m": {m, vtype{"Int", types.Typ[types.Int]}}}, cur: cur, old: st, depth: 0}
+		guard := &cBin{Op: "&&", X: &cBin{Op: ">=", X: lm.Measure, Y: &cInt{V: "0"}}, Y: &cBin{Op: "<", X: lm.Measure, Y: &cIdent{Name: "ih$m"}}}
+		c.assume(ih.formula(&cQuant{Forall: true, Vars: qvars, Body: &cBin{Op: "==>", X: guard, Y: body}}))
 	}
 	f := tr.formula(body)
-	i := strings.Index(lm.Label, ".")
-	o = &obligation{Func: "lemma", Name: "lemma/" + lm.Label, Kind: "lemma", Label: lm.Label, Props: []string{lm.Label[:i]}, Goal: not(f), ctx: c,
+	o = &obligation{Func: "lemma", Name: "lemma/" + lm.Label, Kind: "lemma", Label: lm.Label, Props: []string{prop}, Goal: not(f), ctx: c,
 		NAssume: len(c.assumes), Pos: fmt.Sprintf("%s:%d", relPath(lm.File), lm.Line), Clause: lm.Src}
 	return o, nil
 }
@@ -672,7 +763,10 @@ func (e *engine) report(res *checkResult) (exit int) {
 		assumptions = append(assumptions, "scan of contract files for assume/axiom/trusted/admit markers: none")
 	}
 	cov := map[string]any{
-		"obligations":              total,
+		// obligations excused by a committed known finding are neither claimed nor counted as proved: they are
+		// listed separately (known_findings_excused) and the claim is about the remaining ones
+		"obligations":              total - excused,
+		"obligations_generated":    total,
 		"discharged":               discharged,
 		"checker_cmd":              fmt.Sprintf("bin/gritsvc check -property %s -tier %s", prop, e.tier),
 		"trusted_base":             trusted,
